@@ -411,8 +411,13 @@ class Coverage(BaseAnalysis):
 
     def UnaryOp(self, node: pr.UnaryOp, *args, **kwargs):
         operand = self.no_cast(node.expr)
-        if not (node.op in self.U_OPS and isinstance(
-                operand, (pr.ID, pr.Constant, pr.UnaryOp))):
+        # a nested unary operation is analysable only where its value is not
+        # needed (!, sizeof) and it does not itself change a variable
+        nested = (isinstance(operand, pr.UnaryOp)
+                  and node.op in (self.NEG, self.SIZEOF)
+                  and operand.op not in self.INC_DEC)
+        if not (node.op in self.U_OPS and (
+                isinstance(operand, (pr.ID, pr.Constant)) or nested)):
             self.handler(node, *args, **kwargs)
         else:
             self._recurse_attr(node, 'expr', *args, **kwargs)
